@@ -97,6 +97,14 @@ impl Lender {
 
 fn worker(tid: u32, mut hs: Vec<H>, seed: u64, nops: usize, shared: usize, yields: bool, lender: Option<Lender>, menu: &'static [&'static str]) {
     TID.with(|t| t.set(tid));
+    // leave the scheduler even if this thread unwinds, or the others would wait for it for ever
+    struct Leave;
+    impl Drop for Leave {
+        fn drop(&mut self) {
+            sched_leave();
+        }
+    }
+    let _leave = Leave;
     sched_enter();
     let mut rng = Rng(seed.wrapping_mul(0x9E3779B97F4A7C15) ^ (tid as u64) << 32 | 1);
     let mut private: Vec<H> = vec![];
@@ -261,7 +269,72 @@ fn worker(tid: u32, mut hs: Vec<H>, seed: u64, nops: usize, shared: usize, yield
     for h in private {
         std::mem::forget(h);
     }
-    sched_leave();
+}
+
+/// the recorded events as NDJSON records for ArcMMTrace
+fn convert(evs: Vec<Ev>, shared: usize, pid: u32, init: Vec<usize>, total: usize, nthreads: usize, seed: u64) -> Vec<Value> {
+    // five model threads: up to four workers, and the main thread (5) which may keep and lend one handle
+    let mut init5 = init.clone();
+    init5.resize(5, 0);
+    let mut lines: Vec<Value> = vec![json!({"e": "init", "init": init5, "count": total, "nt": nthreads, "seed": seed})];
+    let mut last_tid = 1u32;
+    for e in evs {
+        match e {
+            Ev::Atomic { cell, op, operand, order, seen, tid } => {
+                last_tid = tid;
+                if cell != shared && op != 6 {
+                    continue; // the count of a private copy made by make_mut
+                }
+                let o = ord_name(order);
+                lines.push(match op {
+                    0 => json!({"t": tid, "e": "load", "o": o, "seen": seen as u64 as i64}),
+                    1 => json!({"t": tid, "e": "store", "d": operand as u64 as i64, "o": o}),
+                    2 => json!({"t": tid, "e": "rmw", "d": 1, "o": o, "seen": seen as u64 as i64, "by": operand as u64 as i64}),
+                    3 => json!({"t": tid, "e": "rmw", "d": 0, "o": o, "seen": seen as u64 as i64, "by": operand as u64 as i64}),
+                    4 | 5 => json!({"t": tid, "e": "cas", "new": operand as u64 as i64, "o": o, "seen": seen as u64 as i64}),
+                    6 => json!({"t": tid, "e": "fence", "o": o}),
+                    _ => json!({"t": tid, "e": "unsupported", "op": op}),
+                });
+            }
+            Ev::Access { addr, kind, tid } => {
+                last_tid = tid;
+                if addr == shared + 8 {
+                    lines.push(json!({"t": tid, "e": if kind == 0 { "read" } else { "write" }}));
+                }
+            }
+            Ev::Clone { src, tid, .. } => {
+                last_tid = tid;
+                if src == pid {
+                    lines.push(json!({"t": tid, "e": "read"}));
+                }
+            }
+            Ev::Drop { id, tid, .. } => {
+                last_tid = tid;
+                if id == pid {
+                    lines.push(json!({"t": tid, "e": "destroy"}));
+                }
+            }
+            Ev::Dealloc { addr, tid, .. } => {
+                if addr == shared {
+                    lines.push(json!({"t": if tid != 0 { tid } else { last_tid }, "e": "free"}));
+                }
+            }
+            Ev::Mark { tid, code, a } => {
+                last_tid = tid;
+                lines.push(match code {
+                    START => json!({"t": tid, "e": "start", "op": OPS[a.min(OPS.len() - 1)]}),
+                    END => json!({"t": tid, "e": "end"}),
+                    HINC => json!({"t": tid, "e": "hinc"}),
+                    HDEC => json!({"t": tid, "e": "hdec"}),
+                    MOVEOUT => json!({"t": tid, "e": "moveout"}),
+                    SYNC => json!({"t": tid, "e": "sync", "to": a}),
+                    _ => continue,
+                });
+            }
+            _ => {}
+        }
+    }
+    lines
 }
 
 fn ord_name(o: u8) -> &'static str {
@@ -380,72 +453,312 @@ pub fn run(seed: u64, nthreads: usize, nops: usize) -> Vec<Value> {
     TID.with(|t| t.set(0));
     SERIALISE.store(false, Ordering::SeqCst);
     alloc::track(false);
-    // ---- the log as NDJSON for ArcMMTrace
-    let evs = ev::drain();
-    let mut init4 = init.clone();
-    init4.resize(4, 0);
-    init4.push(if with_lender { 1 } else { 0 }); // thread 5 is the main thread: it may keep one handle for the whole run and lend it
-    let mut lines: Vec<Value> = vec![json!({"e": "init", "init": init4, "count": total, "nt": nthreads, "seed": seed})];
-    let mut last_tid = 1u32;
-    for e in evs {
-        match e {
-            Ev::Atomic { cell, op, operand, order, seen, tid } => {
-                last_tid = tid;
-                if cell != shared && op != 6 {
-                    continue; // the count of a private copy made by make_mut
-                }
-                let o = ord_name(order);
-                lines.push(match op {
-                    0 => json!({"t": tid, "e": "load", "o": o, "seen": seen as u64 as i64}),
-                    1 => json!({"t": tid, "e": "store", "d": operand as u64 as i64, "o": o}),
-                    2 => json!({"t": tid, "e": "rmw", "d": 1, "o": o, "seen": seen as u64 as i64, "by": operand as u64 as i64}),
-                    3 => json!({"t": tid, "e": "rmw", "d": 0, "o": o, "seen": seen as u64 as i64, "by": operand as u64 as i64}),
-                    4 | 5 => json!({"t": tid, "e": "cas", "new": operand as u64 as i64, "o": o, "seen": seen as u64 as i64}),
-                    6 => json!({"t": tid, "e": "fence", "o": o}),
-                    _ => json!({"t": tid, "e": "unsupported", "op": op}),
-                });
-            }
-            Ev::Access { addr, kind, tid } => {
-                last_tid = tid;
-                if addr == shared + 8 {
-                    lines.push(json!({"t": tid, "e": if kind == 0 { "read" } else { "write" }}));
-                }
-            }
-            Ev::Clone { src, tid, .. } => {
-                last_tid = tid;
-                if src == pid {
-                    lines.push(json!({"t": tid, "e": "read"}));
-                }
-            }
-            Ev::Drop { id, tid, .. } => {
-                last_tid = tid;
-                if id == pid {
-                    lines.push(json!({"t": tid, "e": "destroy"}));
-                }
-            }
-            Ev::Dealloc { addr, tid, .. } => {
-                if addr == shared {
-                    lines.push(json!({"t": if tid != 0 { tid } else { last_tid }, "e": "free"}));
-                }
-            }
-            Ev::Mark { tid, code, a } => {
-                last_tid = tid;
-                lines.push(match code {
-                    START => json!({"t": tid, "e": "start", "op": OPS[a.min(OPS.len() - 1)]}),
-                    END => json!({"t": tid, "e": "end"}),
-                    HINC => json!({"t": tid, "e": "hinc"}),
-                    HDEC => json!({"t": tid, "e": "hdec"}),
-                    MOVEOUT => json!({"t": tid, "e": "moveout"}),
-                    SYNC => json!({"t": tid, "e": "sync", "to": a}),
-                    _ => continue,
-                });
-            }
-            _ => {}
-        }
-    }
+    let mut init = init;
+    init.resize(4, 0);
+    init.push(if with_lender { 1 } else { 0 });
+    let lines = convert(ev::drain(), shared, pid, init, total, nthreads, seed);
     if ev::LOG.overflow.load(Ordering::SeqCst) {
         eprintln!("event log overflow");
         std::process::exit(2);
     }
     lines
+}
+
+// ------------------------------------------------------------------ deterministic preemption injection
+/// One victim call on thread 1; an adversary acting as thread 2 runs right before the victim's k-th count
+/// operation (and optionally again before its k2-th). Everything is logged as in the threaded runs and
+/// judged by ArcMMTrace, so the outcome is decided by the memory-model specification.
+pub fn run_injections(out_path: &str) {
+    use crate::trace::{inject_reset, INJECT};
+    use std::io::Write;
+    use triomphe::{HeaderSlice, HeaderWithLength, ThinArc};
+    type Fat = Arc<HeaderSlice<HeaderWithLength<A>, [u32]>>;
+    enum V {
+        Arc(Arc<A>),
+        Off(OffsetArc<A>),
+        Uni(ArcUnion<A, B>),
+        Thin(ThinArc<A, u32>),
+        Fat(Fat),
+    }
+    fn payload(v: &V) -> *const A {
+        match v {
+            V::Arc(a) => &**a,
+            V::Off(o) => &**o,
+            V::Uni(u) => u.as_first().map(|b| b.get() as *const A).unwrap_or(std::ptr::null()),
+            V::Thin(t) => &t.header.header,
+            V::Fat(f) => &f.header.header,
+        }
+    }
+    fn clone_v(v: &V) -> V {
+        match v {
+            V::Arc(a) => V::Arc(a.clone()),
+            V::Off(o) => V::Off(o.clone()),
+            V::Uni(u) => V::Uni(u.clone()),
+            V::Thin(t) => V::Thin(t.clone()),
+            V::Fat(f) => V::Fat(f.clone()),
+        }
+    }
+    let kinds = ["arc", "off", "uni", "thin", "fat"];
+    let victim_ops = ["drop", "clone", "clone_arc", "try_unwrap", "make_mut", "unwrap_or_clone", "get_mut", "clone_from"];
+    let adversary = ["drop1", "drop2", "clone_drop", "try_unwrap", "read_drop1", "clone"];
+    let mut w = std::io::BufWriter::new(std::fs::File::create(out_path).unwrap());
+    let mut scen = 0u64;
+    for kind in kinds {
+        for vop in victim_ops {
+            // which victim operations exist for which kind
+            let ok = match (kind, vop) {
+                (_, "drop") | (_, "clone") | (_, "clone_from") => true,
+                ("off", "clone_arc") => true,
+                ("arc", "clone_arc") => true,
+                ("arc", "try_unwrap") | ("arc", "make_mut") | ("arc", "unwrap_or_clone") | ("arc", "get_mut") => true,
+                ("off", "make_mut") => true,
+                ("fat", "get_mut") => true,
+                _ => false,
+            };
+            if !ok {
+                continue;
+            }
+            for others in [1usize, 2] {
+                for adv in adversary {
+                    for k1 in 1..=3usize {
+                        for k2 in [0usize, 1, 2] {
+                            // k2 = 0: one preemption; else a second one k2 events after the first
+                            if k2 != 0 && !(vop == "clone" || vop == "clone_arc" || vop == "drop") {
+                                continue;
+                            }
+                            scen += 1;
+                            alloc::reset();
+                            ev::LOG.clear();
+                            alloc::track(true);
+                            // ---- set-up (creation happens-before everything: not logged)
+                            let mk = |v: u32| -> V {
+                                match kind {
+                                    "arc" => V::Arc(Arc::new(A::mk(v))),
+                                    "off" => V::Off(Arc::into_raw_offset(Arc::new(A::mk(v)))),
+                                    "uni" => V::Uni(ArcUnion::from_first(Arc::new(A::mk(v)))),
+                                    "thin" => V::Thin(ThinArc::from_header_and_slice(A::mk(v), &[1, 2, 3])),
+                                    _ => V::Fat(Arc::from_header_and_slice(HeaderWithLength::new(A::mk(v), 3), &[1, 2, 3])),
+                                }
+                            };
+                            let victim = mk(1);
+                            let pa = payload(&victim);
+                            let pid = unsafe { A::peek(pa).id };
+                            let shared = match &victim {
+                                V::Arc(a) => a.heap_ptr() as usize,
+                                V::Off(o) => o.with_arc(|a| a.heap_ptr() as usize),
+                                V::Uni(u) => u.as_first().unwrap().with_arc(|a| a.heap_ptr() as usize),
+                                V::Thin(t) => t.heap_ptr() as usize,
+                                V::Fat(f) => f.heap_ptr() as usize,
+                            };
+                            let mut theirs: Vec<V> = (0..others).map(|_| clone_v(&victim)).collect();
+                            let spare = mk(2); // a second value, for clone_from
+                            ev::LOG.clear();
+                            SERIALISE.store(true, Ordering::SeqCst);
+                            inject_reset();
+                            // ---- the adversary, as thread 2
+                            let theirs_p: *mut Vec<V> = &mut theirs;
+                            let fired = std::rc::Rc::new(std::cell::Cell::new(0usize));
+                            let fired2 = fired.clone();
+                            let act = move |k: usize| {
+                                let n = fired2.get();
+                                let due = (n == 0 && k == k1) || (n == 1 && k2 != 0 && k == k1 + k2);
+                                if !due {
+                                    return;
+                                }
+                                fired2.set(n + 1);
+                                let prev = TID.with(|t| t.replace(2));
+                                let hs = unsafe { &mut *theirs_p };
+                                mark(START, 2);
+                                match adv {
+                                    "drop1" => {
+                                        if let Some(h) = hs.pop() {
+                                            mark(HDEC, 0);
+                                            drop(h);
+                                        }
+                                    }
+                                    "drop2" => {
+                                        while let Some(h) = hs.pop() {
+                                            mark(HDEC, 0);
+                                            drop(h);
+                                        }
+                                    }
+                                    "clone_drop" => {
+                                        if let Some(h) = hs.last() {
+                                            let c = clone_v(h);
+                                            mark(HINC, 0);
+                                            mark(HDEC, 0);
+                                            drop(c);
+                                        }
+                                    }
+                                    "clone" => {
+                                        if let Some(h) = hs.last() {
+                                            let c = clone_v(h);
+                                            mark(HINC, 0);
+                                            hs.push(c);
+                                        }
+                                    }
+                                    "read_drop1" => {
+                                        if let Some(h) = hs.pop() {
+                                            read_payload(unsafe { &*payload(&h) });
+                                            mark(HDEC, 0);
+                                            drop(h);
+                                        }
+                                    }
+                                    _ => match hs.pop() {
+                                        Some(V::Arc(a)) => {
+                                            mark(HDEC, 0);
+                                            match Arc::try_unwrap(a) {
+                                                Ok(v) => {
+                                                    mark(MOVEOUT, 0);
+                                                    std::mem::forget(v);
+                                                }
+                                                Err(a) => {
+                                                    mark(HINC, 0);
+                                                    hs.push(V::Arc(a));
+                                                }
+                                            }
+                                        }
+                                        Some(h) => {
+                                            mark(HDEC, 0);
+                                            drop(h);
+                                        }
+                                        None => {}
+                                    },
+                                }
+                                mark(END, 0);
+                                TID.with(|t| t.set(prev));
+                            };
+                            INJECT.with(|i| *i.borrow_mut() = Some(Box::new(act)));
+                            // ---- the victim call, as thread 1
+                            TID.with(|t| t.set(1));
+                            let mut kept: Vec<V> = vec![];
+                            mark(START, 0);
+                            match (vop, victim) {
+                                ("drop", v) => {
+                                    mark(HDEC, 0);
+                                    drop(v);
+                                }
+                                ("clone", v) => {
+                                    let c = clone_v(&v);
+                                    mark(HINC, 0);
+                                    kept.push(c);
+                                    kept.push(v);
+                                }
+                                ("clone_arc", V::Off(o)) => {
+                                    let c = o.clone_arc();
+                                    mark(HINC, 0);
+                                    kept.push(V::Arc(c));
+                                    kept.push(V::Off(o));
+                                }
+                                ("clone_arc", V::Arc(a)) => {
+                                    let c = a.borrow_arc().clone_arc();
+                                    mark(HINC, 0);
+                                    kept.push(V::Arc(c));
+                                    kept.push(V::Arc(a));
+                                }
+                                ("try_unwrap", V::Arc(a)) => {
+                                    mark(HDEC, 0);
+                                    match Arc::try_unwrap(a) {
+                                        Ok(v) => {
+                                            mark(MOVEOUT, 0);
+                                            std::mem::forget(v);
+                                        }
+                                        Err(a) => {
+                                            mark(HINC, 0);
+                                            kept.push(V::Arc(a));
+                                        }
+                                    }
+                                }
+                                ("make_mut", V::Arc(mut a)) => {
+                                    mark(HDEC, 0);
+                                    write_payload(Arc::make_mut(&mut a), 9);
+                                    if a.heap_ptr() as usize == shared {
+                                        mark(HINC, 0);
+                                        kept.push(V::Arc(a));
+                                    } else {
+                                        std::mem::forget(a);
+                                    }
+                                }
+                                ("make_mut", V::Off(mut o)) => {
+                                    mark(HDEC, 0);
+                                    write_payload(o.make_mut(), 9);
+                                    if (&*o as *const A as usize) - 8 == shared {
+                                        mark(HINC, 0);
+                                        kept.push(V::Off(o));
+                                    } else {
+                                        std::mem::forget(o);
+                                    }
+                                }
+                                ("unwrap_or_clone", V::Arc(a)) => {
+                                    mark(HDEC, 0);
+                                    let v = Arc::unwrap_or_clone(a);
+                                    if v.see().id == pid {
+                                        mark(MOVEOUT, 0);
+                                    }
+                                    std::mem::forget(v);
+                                }
+                                ("get_mut", V::Arc(mut a)) => {
+                                    if let Some(r) = Arc::get_mut(&mut a) {
+                                        write_payload(r, 9);
+                                    }
+                                    kept.push(V::Arc(a));
+                                }
+                                ("get_mut", V::Fat(mut f)) => {
+                                    if let Some(r) = Arc::get_mut(&mut f) {
+                                        write_payload(&mut r.header.header, 9);
+                                    }
+                                    kept.push(V::Fat(f));
+                                }
+                                ("clone_from", v) => {
+                                    // the victim's handle is overwritten by a clone of another value: its own
+                                    // reference to the shared value is released
+                                    let mut v = v;
+                                    mark(HDEC, 0);
+                                    match (&mut v, &spare) {
+                                        (V::Arc(x), V::Arc(y)) => x.clone_from(y),
+                                        (V::Off(x), V::Off(y)) => x.clone_from(y),
+                                        (V::Uni(x), V::Uni(y)) => x.clone_from(y),
+                                        (V::Thin(x), V::Thin(y)) => x.clone_from(y),
+                                        (V::Fat(x), V::Fat(y)) => x.clone_from(y),
+                                        _ => {}
+                                    }
+                                    std::mem::forget(v);
+                                }
+                                (_, v) => kept.push(v),
+                            }
+                            mark(END, 0);
+                            INJECT.with(|i| *i.borrow_mut() = None);
+                            // ---- the adversary releases what it still holds, then the victim
+                            TID.with(|t| t.set(2));
+                            while let Some(h) = theirs.pop() {
+                                mark(START, 2);
+                                mark(HDEC, 0);
+                                drop(h);
+                                mark(END, 0);
+                            }
+                            TID.with(|t| t.set(1));
+                            while let Some(h) = kept.pop() {
+                                mark(START, 2);
+                                mark(HDEC, 0);
+                                drop(h);
+                                mark(END, 0);
+                            }
+                            TID.with(|t| t.set(0));
+                            SERIALISE.store(false, Ordering::SeqCst);
+                            std::mem::forget(spare);
+                            alloc::track(false);
+                            let mut lines = convert(ev::drain(), shared, pid, vec![1, others], 1 + others, 2, scen);
+                            if let Some(l0) = lines.get_mut(0) {
+                                l0["scenario"] = json!(format!("{} {} others={} adversary={} at event {} (+{})", kind, vop, others, adv, k1, k2));
+                            }
+                            for l in &lines {
+                                writeln!(w, "{}", l).unwrap();
+                            }
+                        }
+                    }
+                }
+            }
+        }
+    }
+    alloc::reset();
 }
